@@ -2,7 +2,9 @@ package props
 
 import (
 	"context"
+	"errors"
 	"fmt"
+	"io"
 	"strings"
 
 	mcp "trpc.group/trpc-go/trpc-mcp-go"
@@ -20,6 +22,7 @@ type c07Elem struct {
 	Emit func(w scriptWriter, mode string)
 	Only string // restrict to modes containing this substring ("" = all)
 	Big  bool
+	Cut  bool // the element ends the channel it is written on (the server's output simply stops there)
 }
 
 func c07Elems(tier string) []c07Elem {
@@ -76,6 +79,37 @@ func c07Elems(tier string) []c07Elem {
 		raw("stdio-two-objects-one-line", `{"jsonrpc":"2.0","method":"x/y"}{"jsonrpc":"2.0","method":"x/z"}`+"\n", "io"),
 		raw("stdio-bom", "\xef\xbb\xbf\n", "io"),
 	}
+	// the output stops: in the middle of a frame or between frames, with an orderly end of the
+	// connection or with a transport error (what a reader sees when the peer dies)
+	half := func(mode string) string {
+		switch mode {
+		case "ss":
+			return "id: evt-9\ndata: {\"jsonrpc\":\"2.0\",\"id\""
+		case "ls":
+			return "event: message\ndata: {\"jsonrpc\":\"2.0\",\"id\""
+		}
+		return `{"jsonrpc":"2.0","id"`
+	}
+	for _, c := range []struct {
+		name string
+		half bool
+		err  error
+	}{
+		{"cut-mid-frame-then-eof", true, io.EOF},
+		{"cut-mid-frame-then-unexpected-eof", true, io.ErrUnexpectedEOF},
+		{"cut-mid-frame-then-reset", true, errors.New("read tcp 10.0.0.1:1234->10.0.0.2:80: read: connection reset by peer")},
+		{"cut-between-frames-then-unexpected-eof", false, io.ErrUnexpectedEOF},
+		{"cut-between-frames-then-reset", false, errors.New("read tcp 10.0.0.1:1234->10.0.0.2:80: read: connection reset by peer")},
+	} {
+		c := c
+		out = append(out, c07Elem{Name: c.name, Cut: true, Emit: func(w scriptWriter, mode string) {
+			raw := ""
+			if c.half {
+				raw = half(mode)
+			}
+			w.WritePartial(raw, c.err)
+		}})
+	}
 	if tier == "thorough" {
 		out = append(out, c07Elem{Name: "frame-1MiB", Big: true, Emit: func(w scriptWriter, mode string) {
 			w.Frame(`{"jsonrpc":"2.0","method":"x/big","params":{"d":"` + big(1<<20) + `"}}`)
@@ -115,7 +149,7 @@ func c07Cases(tier string) []c07Case {
 			for i := range els {
 				for j := range els {
 					a, b := els[i], els[j]
-					if a.Big || b.Big || (a.Only != "" && !strings.Contains(m, a.Only)) || (b.Only != "" && !strings.Contains(m, b.Only)) {
+					if a.Big || b.Big || a.Cut || b.Cut || (a.Only != "" && !strings.Contains(m, a.Only)) || (b.Only != "" && !strings.Contains(m, b.Only)) {
 						continue
 					}
 					if m == "sj" {
@@ -314,7 +348,7 @@ func c07Exec(cs c07Case, cfg vsched.Config) (CaseResult, explore.Outcome) {
 				vsched.Quiesce()
 				w.Frame(`{"jsonrpc":"2.0","method":"notifications/probe","params":{"n":1}}`)
 				vsched.Quiesce()
-				if len(got.Items()) != 1 && cs.Mode != "ls" {
+				if len(got.Items()) != 1 && cs.Mode != "ls" && !cs.Elem.Cut {
 					viol = append(viol, V(k("later-frame-lost"), "after the element, a well-formed notification on the same stream reached the handler %d times (want 1)", len(got.Items())))
 				}
 			}
@@ -351,6 +385,11 @@ func c07Exec(cs c07Case, cfg vsched.Config) (CaseResult, explore.Outcome) {
 			txt2, err2, done2 := call("2")
 			if !done2 {
 				viol = append(viol, V(k("later-call-hangs"), "a later call on the same client never returned; blocked: %v", vsched.LiveThreads()))
+			} else if cs.Elem.Cut && (cs.Mode == "ls" || cs.Mode == "io") {
+				// the only channel the server can answer on is gone: the later call has to return, not to succeed
+				if err2 == nil && txt2 != "second" {
+					viol = append(viol, V(k("later-call-wrong-result"), "after the server's output ended, a later call returned %q", txt2))
+				}
 			} else if err2 != nil || txt2 != "second" {
 				viol = append(viol, V(k("later-call-fails"), "a later well-formed exchange on the same client failed: %q %v", txt2, err2))
 			}
